@@ -46,11 +46,24 @@ func (k Keeper) HandleExpiredShard(ctx sdk.Context, shardId uint64) {
 		}
 		// what is still listed may all belong elsewhere (a shard migrating in under another
 		// order, copied into this order's list when it was created): then this order's period
-		// is over with its last own shard, and it must not stay behind listing foreign shards
+		// is over with its last own shard, and it must not stay behind listing foreign shards.
+		// A shard that still has this order queued as a renewal (its periods may be offset
+		// against the expiring shard's) is the order's own as well.
 		own := false
 		for _, id := range order.Shards {
-			if s, found := k.order.GetShard(ctx, id); found && s.OrderId == order.Id {
+			s, found := k.order.GetShard(ctx, id)
+			if !found {
+				continue
+			}
+			if s.OrderId == order.Id {
 				own = true
+			}
+			for _, info := range s.RenewInfos {
+				if info.OrderId == order.Id {
+					own = true
+				}
+			}
+			if own {
 				break
 			}
 		}
